@@ -578,3 +578,26 @@ pub(crate) fn run_to_end(mode: u8, inp: [u8; NI], n: usize, n0: usize, caps: [us
     ctx.cap_for(ctx.ncw)?;
     Some(ctx.ncw - n0)
 }
+
+// ---------------------------------------------------------------------------
+// Failure classification at the entry of GenericDataEncoder::codewords (C11):
+// with an EMPTY symbol list the answer is SymbolListEmpty for every input,
+// whatever its length (the early returns come before the planner is called).
+
+fn empty_list_case<const N: usize>() {
+    let data: [u8; N] = kani::any();
+    let fnc1: bool = kani::any();
+    let list = SymbolList::with_whitelist([]);
+    let mut enc = GenericDataEncoder::with_size(&data, &list, EncodationType::all(), fnc1);
+    let r = GenericDataEncoder::codewords(&mut enc);
+    assert!(r == Err(DataEncodingError::SymbolListEmpty));
+}
+
+#[kani::proof]
+#[kani::unwind(10)]
+fn tot_empty_list() {
+    empty_list_case::<0>();
+    empty_list_case::<1>();
+    empty_list_case::<3>();
+    empty_list_case::<7>();
+}
